@@ -96,6 +96,7 @@ class CaseResult:
         self.worst_ = {}
         self.nontrivial = False
         self.key = None
+        self.extra_keys = []
         self.inconclusive = None
         self.info = {}
 
@@ -107,9 +108,12 @@ class CaseResult:
         self.monitors[monitor] = self.monitors.get(monitor, 0) + 1
         if ok:
             return True
-        n = self._vcount.get(monitor, 0) + 1
-        self._vcount[monitor] = n
-        if n <= MAX_VIOL_PER_MONITOR:
+        vk = (monitor, json.dumps(jsonable(mech or {}), sort_keys=True))
+        n = self._vcount.get(vk, 0) + 1
+        self._vcount[vk] = n
+        tot = self._vcount.get(monitor, 0) + 1
+        self._vcount[monitor] = tot
+        if n <= MAX_VIOL_PER_MONITOR and tot <= 40:
             self.violations.append({'monitor': monitor, 'mech': jsonable(mech or {}),
                                     'detail': jsonable(detail)})
         return False
@@ -148,12 +152,16 @@ class CaseResult:
         self.nontrivial = bool(flag)
         self.key = key
 
+    def add_nontrivial(self, key):
+        """A case that bundles several independent sub-cases reports each non-trivial one by its own key."""
+        self.extra_keys.append(str(key))
+
     def to_json(self):
         return {'idx': self.case.get('idx'), 'monitors': self.monitors, 'violations': self.violations,
                 'observed': jsonable(self.observed), 'worst': jsonable(self.worst_),
                 'nontrivial': self.nontrivial,
                 'key': self.key if self.key is not None else case_hash({k: v for k, v in self.case.items() if k != 'idx'}),
-                'inconclusive': self.inconclusive, 'info': jsonable(self.info)}
+                'extra_keys': self.extra_keys, 'inconclusive': self.inconclusive, 'info': jsonable(self.info)}
 
 
 class StopRun(Exception):
